@@ -106,3 +106,11 @@ for n in (2, 3):
           given=['spec.cov.valid_input(p.intervals, p.slopes)', 'b >= 0', 'x >= 0', 'T > 0'],
           prove=[('original-unchanged', 'spec.cov.edit_copy_keeps_original(p, b, s) and spec.cov.wf(p)'),
                  ('copy-well-formed', 'spec.cov.wf(spec.cov.edit_copy_of(p, b, s))')])
+
+# a breakpoint below all existing ones (outside the coverage domain, but accepted by insert): the lists stay ordered pairs
+contract(K + '.insert', P, label='below-every-breakpoint', shapes=dict(n=[1, 2, 3]),
+         args=lambda n: dict(self=anyobj(n), interval=Real(-1., -0.01), slope=Real(-50., 50.)),
+         requires=['spec.cov.wf(self)', 'interval < 0'],
+         ensures=[('view', 'spec.cov.inserted(old(self.intervals), old(self.slopes), interval, slope, self.intervals, self.slopes)'),
+                  ('breakpoints-ascending', 'all(self.intervals[k - 1] <= self.intervals[k] for k in range(1, len(self.intervals)))'),
+                  ('new-pair-first', 'self.intervals[0] == interval and self.slopes[0] == slope')], cross_check=False)
